@@ -325,7 +325,7 @@ class AssociationV(_NativeOnly):
     object (data, property groups) or, for a group or a workspace, anything below it; values that name
     nothing (None, numbers, text) are not its business."""
     target = "geoh5py/shared/validators.py::AssociationValidator.validate"
-    bounded_scope = "two objects with data and a property group each inside a group; value in {None, number, text, own / foreign data, own / foreign property group, own / foreign object; each as entity and as identifier} x valid in {None, parent object, parent group, workspace} (exhaustive)"
+    bounded_scope = "two objects with data and a property group each inside a group; value in {None, number, text, own / foreign data, own / foreign property group, own / foreign object; each as entity and as identifier} x valid in {None, parent object, parent group, workspace} (exhaustive); the same for two holes in two drillhole groups (data, property groups and holes as values; creating session and after a re-open)"
 
     VALUES = ("none", "number", "text", "own-data", "foreign-data", "own-pg", "foreign-pg", "own-object", "foreign-object", "unknown-uid")
     VALIDS = ("none", "object", "group", "workspace")
@@ -335,8 +335,76 @@ class AssociationV(_NativeOnly):
             for form in ("entity", "uid"):
                 for valid in self.VALIDS:
                     yield {"value": v, "form": form, "valid": valid}
+        # holes of a drillhole group (their data are filed in the group's tables): freshly created and after a re-open
+        for v in ("own-data", "foreign-data", "own-pg", "foreign-pg", "own-object", "foreign-object"):
+            for form in ("entity", "uid"):
+                # (the property names the parent object and the workspace; what a drillhole *group* given as parent covers is
+                # pinned by tests/drillhole_v4_0_test.py -- its holes only -- and not claimed here)
+                for valid in ("object", "workspace"):
+                    for session in ("creating", "reopened"):
+                        yield {"layout": "drillhole-group", "value": v, "form": form, "valid": valid, "session": session}
+
+    def _holes(self, case):
+        import os
+        import shutil
+        import tempfile
+
+        import numpy as np
+
+        from geoh5py.groups import DrillholeGroup
+        from geoh5py.objects import Drillhole
+        from geoh5py.shared.exceptions import AssociationValidationError
+        from geoh5py.shared.validators import AssociationValidator
+        from geoh5py.workspace import Workspace
+
+        d = tempfile.mkdtemp()
+        try:
+            ws = Workspace.create(os.path.join(d, "h.geoh5"))
+            g = DrillholeGroup.create(ws, name="campaign")
+            g2 = DrillholeGroup.create(ws, name="elsewhere")
+            for grp, hname in ((g, "a"), (g2, "b")):
+                h = Drillhole.create(ws, name=hname, parent=grp, collar=[0.0, 0.0, 0.0])
+                h.add_data({"d" + hname: {"depth": np.arange(3.0), "values": np.arange(3.0)}})
+            # identifiers as a form holds them (a later session has not loaded anything of the holes when it checks them)
+            a, b = ws.get_entity("a")[0], ws.get_entity("b")[0]
+            ids = {"own-data": a.get_data("da")[0].uid, "foreign-data": b.get_data("db")[0].uid, "own-pg": a.property_groups[0].uid, "foreign-pg": b.property_groups[0].uid, "own-object": a.uid, "foreign-object": b.uid}
+            del a, b, h, g, g2
+            if case["session"] == "reopened":
+                ws.close()
+                ws = Workspace(os.path.join(d, "h.geoh5"))
+            try:
+                g = ws.get_entity("campaign")[0]
+                a, b = ws.get_entity("a")[0], ws.get_entity("b")[0]
+                if case["form"] == "uid":
+                    value = ids[case["value"]]
+                else:
+                    value = {"own-data": lambda: a.get_data("da")[0], "foreign-data": lambda: b.get_data("db")[0], "own-pg": lambda: a.property_groups[0], "foreign-pg": lambda: b.property_groups[0],
+                             "own-object": lambda: a, "foreign-object": lambda: b}[case["value"]]()
+                valid = {"object": a, "group": g, "workspace": ws}[case["valid"]]
+                if case["valid"] == "workspace":
+                    want = True
+                elif case["valid"] == "object":
+                    want = case["value"] in ("own-data", "own-pg")
+                else:
+                    want = case["value"] in ("own-data", "own-pg", "own-object")
+                try:
+                    AssociationValidator.validate("p", value, valid)
+                    got = True
+                except AssociationValidationError:
+                    got = False
+                except Exception as exc:
+                    return f"AssociationValidator raised {type(exc).__name__}: {exc} for {case}"
+                if got != want:
+                    return f"{case['value']} of a hole in a drillhole group given as {case['form']} with parent {case['valid']} ({case['session']} session): {'accepted' if got else 'rejected'}, expected {'accepted' if want else 'rejected'} ({case})"
+            finally:
+                ws.close()
+        finally:
+            shutil.rmtree(d, ignore_errors=True)
+        return None
 
     def native_check(self, case):
+        if case.get("layout") == "drillhole-group":
+            return self._holes(case)
         import numpy as np
 
         from geoh5py.groups import ContainerGroup
